@@ -21,7 +21,7 @@ def encodings():
     return encs
 
 
-def make_case(rng, cid, enc, nsteps=1, tracemode=0, io=None):
+def make_case(rng, cid, enc, nsteps=1, tracemode=0, io=None, coin=None):
     table, op, tmpl = enc
     st = rand_state(rng)
     # the halted indication of an earlier HALT / Run is not machine state: Step must behave the same with it set
@@ -39,6 +39,12 @@ def make_case(rng, cid, enc, nsteps=1, tracemode=0, io=None):
         if rng.chance(1, 3):
             de = (st["PC"] + rng.below(9) - 3) & 0xFFFF
             st["D"], st["E"] = de >> 8, de & 0xFF
+    if coin is not None:
+        # deterministic coincidence: the stack pointer and every pointer register at PC + coin (two roles at one address)
+        a = (st["PC"] + coin) & 0xFFFF
+        st["SP"], st["IX"], st["IY"] = a, a, a
+        for hi, lo in (("H", "L"), ("D", "E"), ("B", "C")):
+            st[hi], st[lo] = a >> 8, a & 0xFF
     # 16-bit INC/DEC: the carry / borrow between the halves (low byte 00h / FFh), for every pair incl. SP, IX, IY
     if table in ("main", "dd", "fd") and op in (0x03, 0x0B, 0x13, 0x1B, 0x23, 0x2B, 0x33, 0x3B) and rng.chance(1, 2):
         lo = rng.choice([0x00, 0xFF])
@@ -57,6 +63,8 @@ def make_case(rng, cid, enc, nsteps=1, tracemode=0, io=None):
     pc = st["PC"]
     bs = [(b if b is not None else rng.choice([0, 1, 0x7F, 0x80, 0xFF, rng.below(256)])) for b in tmpl]
     bs += [rng.choice(EDGE8) if rng.chance(1, 3) else rng.below(256) for _ in range(3)]
+    if rng.chance(1, 4) and len(tmpl) < len(bs):
+        bs[len(tmpl)] = 0xFF          # a 16-bit address operand ending in FFh: the word access crosses a page (or wraps)
     for i, b in enumerate(bs):
         mem[(pc + i) & 0xFFFF] = b
     # a few random data bytes where the instruction may look
